@@ -67,7 +67,8 @@ namespace awkward {
   void
   ForthOutputBuffer::rewind(int64_t num_items, util::ForthError& err) noexcept {
     int64_t next = length_ - num_items;
-    if (next < 0) {
+    if (num_items < 0  ||  next < 0) {
+      // (a negative count would extend the output over unwritten memory)
       err = util::ForthError::rewind_beyond;
     }
     else {
